@@ -49,7 +49,7 @@ var Classes = []string{
 	"way-key-oor", "way-val-oor", "way-keys-longer", "way-usersid-oor", "way-lats-longer",
 	"rel-key-oor", "rel-usersid-oor", "rel-role-oor", "rel-roles-longer", "rel-memids-shorter",
 	"stringtable-missing", "payload-truncated", "payload-garbage",
-	"group-plain-nodes",
+	"group-plain-nodes", "prefix-in-band", "datasize-in-band",
 }
 
 // Tolerated lists malformations the property does not name (a surplus column entry the decoder may ignore);
@@ -91,6 +91,13 @@ func damage(b *pbfw.Block, class string) bool {
 	case "prefix-allones":
 		v := uint32(0xffffffff)
 		b.Damage.PrefixOverride = &v
+	case "prefix-in-band":
+		// sizes inside the bands the format allows but advises against (header 32..64 KiB, blob 16..32 MiB) that the
+		// stream does not hold: a reader must run into the end of input, not into its own buffer limits
+		v := uint32(40000)
+		b.Damage.PrefixOverride = &v
+	case "datasize-in-band":
+		b.Damage.DataSizeOverride = pbfw.I32(20 << 20)
 	case "datasize-oversized":
 		b.Damage.DataSizeOverride = pbfw.I32(40 << 20)
 	case "datasize-negative":
